@@ -321,6 +321,62 @@ def parser_isolation(_):
 
 
 
+def spelling_variant(text, how):
+    """the same document with every numeric leaf text / attribute value re-spelled: 'decimal' 2 -> 2.5 where the type
+    is decimal-derived (a different, fractional value), 'integral' 2.5 -> 2"""
+    import re
+    import xml.etree.ElementTree as ET
+    from mc import docs
+    root = ET.fromstring(text)
+    for e in root.iter():
+        if len(e) == 0 and e.text and re.fullmatch(r'-?\d+(\.\d+)?', e.text.strip()):
+            tt = docs.text_type(e.tag)
+            if tt and docs.type_roots(tt) == {'xs:decimal'}:
+                e.text = (e.text.strip().split('.')[0] + '.5') if how == 'decimal' else e.text.strip().split('.')[0]
+        for k, v in list(e.attrib.items()):
+            at = docs.attr_type(e.tag, k)
+            if at and docs.type_roots(at) == {'xs:decimal'} and re.fullmatch(r'-?\d+(\.\d+)?', v):
+                e.set(k, (v.split('.')[0] + '.5') if how == 'decimal' else v.split('.')[0])
+    return ET.tostring(root, encoding='unicode')
+
+
+def parse_alone(text):
+    from mc import docs
+    p = docs.parse_text(text, docs.run_dir(), 'c13alone')
+    if not p.ok:
+        return 'exc:' + p.exc
+    o = call(p.value.to_string)
+    return o.value if o.ok else 'exc:' + o.exc
+
+
+def parser_order(_):
+    """(3b) what parse_musicxml returns for a document does not depend on what was parsed before it in the process: each
+    document is parsed in a pristine child, and in one process after its spelling variants (every decimal-typed number
+    fractional / integral) - the serialisations of the returned trees must be identical"""
+    vio = []
+    cdir = os.path.join(core.VERIF, 'corpus')
+    texts = [('synthetic', PARSER_DOC)] + [(f, open(os.path.join(cdir, f), encoding='utf-8').read()) for f in sorted(os.listdir(cdir))]
+    ctx = multiprocessing.get_context('fork')
+    n = 0
+    for dname, text in texts:
+        variants = [('original', text), ('decimal', spelling_variant(text, 'decimal')), ('integral', spelling_variant(text, 'integral'))]
+        with ctx.Pool(1, maxtasksperchild=1) as pool:
+            alone = {k: pool.apply(parse_alone, (t,)) for k, t in variants}
+        for order in (('decimal', 'integral', 'original'), ('integral', 'decimal', 'original'), ('original', 'decimal', 'integral')):
+            with ctx.Pool(1, maxtasksperchild=1) as pool:
+                got = pool.apply(_parse_sequence, ([dict(variants)[k] for k in order],))
+            for k, g in zip(order, got):
+                n += 1
+                if g != alone[k]:
+                    vio.append({'scope': 'parser', 'kind': 'fresh-instance-differs',
+                                'key': [dname, 'parse-result-depends-on-earlier-parses', list(order), k]})
+    return vio, n
+
+
+def _parse_sequence(texts):
+    return [parse_alone(t) for t in texts]
+
+
 def pair_list():
     out = [(T, impl.REP[T], T, impl.REP[T]) for T in impl.TYPES]
     # different element classes bound to the same element-content complex type
@@ -371,6 +427,10 @@ def run(tier):
     for v in pv:
         run_.violation(v['scope'], v['kind'], v['key'])
     oc['parser_nodes_mutated'] = pn
+    pv, pn = parser_order(0)
+    for v in pv:
+        run_.violation(v['scope'], v['kind'], v['key'])
+    oc['parse_results_compared_with_pristine'] = pn
     for vio, o, tabs, ft in res:
         run_.add_violations(vio)
         for k, v in o.items():
